@@ -387,10 +387,82 @@ func (w *World) locksetFunc(fn *ssa.Function, g *guardInfo) []*Obligation {
 					}
 				}
 			}
+			// a guarded map/slice value must not leave the function (it would be used outside the critical section)
+			escape := func(v ssa.Value, how string) {
+				if d, ok := derived[v]; ok {
+					ok2 := w.noProductionCallers(fn)
+					what := "escape (" + how + ") of the live guarded value"
+					if ok2 {
+						what += " [function has no callers outside tests]"
+					}
+					report(ins, d[0], "the value to stay inside the critical section", cur, what, ok2)
+				}
+			}
+			switch t := ins.(type) {
+			case *ssa.Return:
+				for _, r := range t.Results {
+					escape(r, "return")
+				}
+			case *ssa.Store:
+				escape(t.Val, "store")
+			case *ssa.MakeInterface:
+				escape(t.X, "interface conversion")
+			case *ssa.MakeClosure:
+				for _, b := range t.Bindings {
+					escape(b, "closure capture")
+				}
+			case *ssa.Send:
+				escape(t.X, "channel send")
+			case ssa.CallInstruction:
+				if _, isBuiltin := t.Common().Value.(*ssa.Builtin); !isBuiltin {
+					for _, a := range t.Common().Args {
+						escape(a, "call argument")
+					}
+				}
+			}
 			applyLockEffect(ins, cur)
 		}
 	}
 	return obls
+}
+
+// noProductionCallers: no function outside _test.go files calls fn (it is a test-only accessor).
+func (w *World) noProductionCallers(fn *ssa.Function) bool {
+	if w.callers == nil {
+		w.callers = map[*ssa.Function]bool{}
+		for _, f := range w.funcs {
+			if f.Blocks == nil {
+				continue
+			}
+			pos := w.prog.Fset.Position(f.Pos())
+			if strings.HasSuffix(pos.Filename, "_test.go") {
+				continue
+			}
+			pk := f.Pkg
+			if pk == nil && f.Parent() != nil {
+				pk = f.Parent().Pkg
+			}
+			if pk == nil || !strings.HasPrefix(pk.Pkg.Path(), modPath) {
+				continue
+			}
+			for _, b := range f.Blocks {
+				for _, ins := range b.Instrs {
+					if c, ok := ins.(ssa.CallInstruction); ok {
+						if callee := c.Common().StaticCallee(); callee != nil {
+							w.callers[callee] = true
+						}
+					}
+					// method values / function references
+					for _, op := range ins.Operands(nil) {
+						if g, ok := (*op).(*ssa.Function); ok {
+							w.callers[g] = true
+						}
+					}
+				}
+			}
+		}
+	}
+	return !w.callers[fn]
 }
 
 func posString(w *World, p token.Pos) string {
